@@ -235,6 +235,14 @@ func BuildTx(kr *Keyring, s TxSpec, prior Prior) (f TxFacts) {
 		// types this is just a damaged signature)
 		tx.Signature.Signature = flipS(tx.Signature.Signature)
 		honest = false
+	case s.Mut == "msigshort":
+		// one of the keys of a multisignature account did not sign (in the nested component if there is one)
+		if signer.IsMulti() {
+			tx.Signature.Signature = signer.SignShort(signBytes)
+		} else if len(tx.Signature.Signature) > 1 {
+			tx.Signature.Signature = tx.Signature.Signature[:len(tx.Signature.Signature)-1]
+		}
+		honest = false
 	case s.Mut == "nomsg":
 		// well-formed amino for a transaction without a message
 		tx.Msg = nil
